@@ -35,7 +35,16 @@ RULE = ("E-PROD (ift): dimension n (2,3; thorough also 5) x parameter point (ful
         "the first step; every component of the last solution is differentiated w.r.t. all first-step parameters; "
         "non-trivial = length >= 2 and expected derivative > 100 tau. E-PROD (helpers): element order {1,2} x material {Neohookean, J2Plastic} x (displacement, previous "
         "state) configurations x helper x EVERY basis cotangent; non-trivial = the dense Jacobian block is non-zero and, "
-        "for J2, the configuration is yielding (measured from the eqps increment). E-PROD (fs): order x mode x every "
+        "for J2, the configuration is yielding (measured from the eqps increment). E-PROD (helpers, time step): element order "
+        "{1,2} x rate-dependent material {HyperViscoelastic, J2Plastic small-deformation with power-law rate sensitivity} x "
+        "(displacement {small, large} x previous state {virgin, evolved by one load step with dt=0.5: relaxing / hardened}) x "
+        "coordinates {mesh, moved} x helper x time step {helper's default (no dt handed over; update helpers of the "
+        "viscoelastic material only), 0.25, 10.0 as trailing positional argument; order 1 also 0.25 as keyword dt=} x EVERY "
+        "basis cotangent, against the dense jax.jacfwd Jacobian of the independently composed map at the same dt. "
+        "Non-trivial for a case with a time step = the expected row is non-zero AND differs by more than 100 tau from the "
+        "same row at every other time step of the axis (for the viscoelastic update helpers that includes dt=0), i.e. a "
+        "dropped or stale dt would be seen (measured); outcome labels: evolving/frozen (measured: the internal state moves "
+        "in the step) or yielding/elastic/mixed. E-PROD (fs): order x mode x every "
         "single node x component x {+-1e-3, +-0.1}.")
 ASSUMPTIONS = [
     "sksparse stand-in in /verif/shim (dense Cholesky) is the preconditioner used by the forward and the adjoint solve",
@@ -57,13 +66,28 @@ ASSUMPTIONS = [
     "gradients, einsum assembly, explicit scatter of unknowns) and only takes the material's point functions "
     "(compute_energy_density / compute_state_new) and the parent-element shape table from the library; J2 "
     "configurations are kept away from the yield switch (|f|/Y0 >= 1e-3), where the maps are not differentiable",
+    "time step: in optimism/inverse/MechanicsInverse.py only the three internal-variable-update helpers take a time step: "
+    "ivs_update_jac_ivs_prev(U, ivs, dt=0.0), ivs_update_jac_disp_vjp(U, ivs, cotangent, dt=0.0), "
+    "ivs_update_jac_coords_vjp(U, ivs, coords, cotangent, dt=0.0) (trailing positional or keyword). The residual helpers "
+    "(residual_jac_coords_vjp, residual_jac_ivs_prev_vjp) have NO time-step parameter: they differentiate the caller's "
+    "energyFunction(Uu, p, ivs, coords), so on the time-step axis the caller-composed energy hands p.app_data as dt to "
+    "Mechanics' compute_strain_energy(U, ivs, dt) (no dt is invented for the helper; a keyword/positional or default "
+    "variant does not exist there)",
+    "rate-dependent materials: HyperViscoelastic (K_eq 50, G_eq 5, G_neq 7, relaxation time 0.8) and J2Plastic small "
+    "deformations (E 100, nu 0.321, Y0 30, linear hardening 1, power-law rate sensitivity S 10, m 2, epsdot0 0.1). dt=0 is "
+    "not an admissible time step of their energies (0/0 in the dissipation / kinetic potential) and not of the power-law "
+    "state update; the helper's default call (dt=0.0) is therefore only made for the update helpers of the viscoelastic "
+    "material, whose state update is the identity in the previous state at dt=0",
+    "the oracle maps take dt as an argument and hand it to the material's point functions compute_energy_density / "
+    "compute_state_new; the groups without a time-step axis call them with the constant 0.0 as before",
 ]
 TOLERANCES = {
     "ift cotangent": "|obs - exp|_inf <= 1e-7 ||H^-1|| ||G_k|| ||v|| + 100 tol ||H^-1|| Lip_x(H^-1 G_k) + 1e-14 (second term: the "
                      "forward solution is only determined to tol ||H^-1||; it is ~1e-9)",
     "guess cotangent": "|obs|_inf <= 1e-7 ||v||  (exact zero expected)",
     "chain": "|obs - exp|_inf <= 1e-7 * L * (a-priori norm bound of d x_L / d theta) (+1e-14)",
-    "helper vjp": "|obs - exp|_inf <= 1e-10 * max(||J||_max, 1e-300 guard) relative to the largest entry of the dense Jacobian",
+    "helper vjp": "|obs - exp|_inf <= 1e-10 * max(||J||_max, 1e-300 guard) relative to the largest entry of the dense Jacobian "
+                  "(the same on the time-step axis: worst observed there 2.0e-14 ||J||_max, tracked as helper_dt_err_over_tau[...])",
     "function space": "max |a - b| <= 1e-14 * max(1, max|b|) per array (1e-13 when the adjoint constructor runs under jit); "
                       "integer/structure fields exact",
 }
@@ -82,10 +106,15 @@ HORIZON_S = 60.0
 _DT_VALUES = {"default": 0.0, "0.25": 0.25, "10": 10.0, "0.25kw": 0.25}
 _DT_AXIS = {
     # compute_state_new of HyperViscoelastic is well defined at dt=0 (identity in the previous state): default call included
-    "hypervisco": ["default", "0.25", "10", "0.25kw"],
+    "hypervisco": ["default", "0.25", "10"],
     # the power-law kinetic potential divides by dt: dt=0 is not an admissible time step of this material
-    "j2-rate-small": ["0.25", "10", "0.25kw"],
+    "j2-rate-small": ["0.25", "10"],
 }
+
+
+def _dt_axis(mat, order):
+    """keyword passing is one more compilation of every update helper: on the order-1 configurations only"""
+    return _DT_AXIS[mat] + (["0.25kw"] if order == 1 else [])
 
 
 # ---------------------------------------------------------------------------------------------------
@@ -94,6 +123,10 @@ def bounds(tier):
             "entries": ["nonlinear_solve", "nonlinear_solve_with_state"], "chain_depth": _chain_depth(tier), "chain_actions": 3,
             "chain_starts": 1 if tier == "quick" else 2,
             "helper_orders": [1, 2], "helper_materials": ["neohookean", "j2-small", "j2-large (quick: state-update products on order 1 only)"],
+            "helper_dt_materials": sorted(_DT_AXIS), "helper_dt_orders": [1, 2],
+            "helper_dt_axis": {m: {"order1": _dt_axis(m, 1), "order2": _dt_axis(m, 2)} for m in sorted(_DT_AXIS)},
+            "helper_dt_values": _DT_VALUES, "helper_dt_states": ["virgin", "evolved (one step, dt=0.5)"],
+            "helper_dt_fields": ["small", "large"], "helper_dt_coords": ["mesh", "moved"],
             "fs_perturbations": ["+1e-3", "-1e-3", "+0.1", "-0.1"], "fs_modes": ["cartesian", "axisymmetric"]}
 
 
@@ -117,9 +150,9 @@ def groups(tier, seed):
     for mat, order, parts in hg:
         gs.append({"name": "helpers-%s-p%d-%s" % (mat, order, parts), "kind": "helpers", "mat": mat, "order": order, "parts": parts})
     # rate-dependent materials: the time step is an explicit axis (one group per (material, order): workers exit after a group)
-    for mat, order in (("j2-rate-small", 2), ("hypervisco", 2), ("j2-rate-small", 1), ("hypervisco", 1)):
+    for mat, order in (("hypervisco", 2), ("hypervisco", 1), ("j2-rate-small", 2), ("j2-rate-small", 1)):
         gs.append({"name": "helpers-%s-p%d-RU-dt" % (mat, order), "kind": "helpers", "mat": mat, "order": order, "parts": "RU",
-                   "dts": _DT_AXIS[mat]})
+                   "dts": _dt_axis(mat, order)})
     for n in sorted(_ift_dims(tier), reverse=True):
         ns = _ift_shards(tier, n)
         for s in range(ns):
@@ -916,7 +949,8 @@ def _run_helpers(g, tier, seed, rec):
                     continue
                 # time-step labels of this helper: the residual helpers take no dt (no default call to make; the energy of the
                 # rate-dependent materials is 0/0 at dt=0), and a keyword cannot be told from a positional dt in the caller's energy
-                dls = [dl for dl in dlabels if dl in clss and not (h.startswith("R-") and (dl == "default" or dl.endswith("kw")))]
+                dls = [dl for dl in dlabels
+                       if dl in clss and not (rate and h.startswith("R-") and (dl == "default" or dl.endswith("kw")))]
                 allcids = {dl: ["helper;mat=%s;p=%d;U=%s;state=%s;X=%s%s;h=%s;v=e%d" % (matn, order, ul, sl, xl, "" if dl is None else ";dt=%s" % dl, h, i)
                                 for i in range(ncot)] for dl in dls}
                 if not any(rec.want(c) for dl in dls for c in allcids[dl]):
